@@ -7,14 +7,14 @@ from comp.slab import gen
 
 KINDS = {
     "C01": {"overlap", "inside", "align", "size", "bookkeeping", "freelist", "sizeclass", "assert"},
-    "C02": {"content", "footprint", "realloc", "nullop", "churn"},
+    "C02": {"content", "footprint", "realloc", "nullop", "churn", "policy-identity"},
     "C03": {"unmap", "pages", "poison", "poison-access"},
     "C04": {"mapfail", "lock-balance"},
 }
 COMMON = {"crash"}          # a crash of the real code that is not an access to poisoned memory counts for every property
 OTHER = {"lock-at-callback", "deadlock"}     # C05's ("lock-balance": unlock of an unlocked mutex / a mutex held at return -> C04)
 
-RULE = ("seeded op scripts (allocate/free/deallocate/realloc/get_size/user writes/digests/structure dumps on slots) over 14 "
+RULE = ("seeded op scripts (allocate/free/deallocate/realloc/get_size/user writes/digests/structure dumps on slots) over 17 "
         "template configurations (page 0x1000/0x4000, slab/sb 2^16, 2^18, 0x1C000/0x20000, 4/10/13 buckets, aligned/unaligned map, "
         "with/without poison hooks) and 6 generator modes (mixed sizes at every class boundary, fill/drain of whole slabs, realloc "
         "class pairs, map-failure injection with retry, large path with region recycling; churn ops = tight allocate/free loops, 2^32 pairs in the thorough tier of C01/C02); non-trivial = distinct script in which "
@@ -28,6 +28,8 @@ TRUSTED = ["extraction: ExtrOcamlBasic only; OCaml 4.13.1; comp/slab/driver.ml (
 ASSUMPTIONS = ["cfg_ok: page/sb powers of two, page | slabsize <= sb, slabsize <= 2^34, at least two objects of the largest class per slab, <= 56 buckets",
                "policy_ok: map answers non-zero, non-wrapping, disjoint from outstanding regions, sb-aligned for the aligned signature",
                "api_ok: free/deallocate/realloc/get_size only of live pointers (or null), request sizes < 2^62, deallocate size <= block size",
+               "the policy is an external object REFERENCED, not owned or copied, by the pool: its answers are the op inputs of the model; "
+               "two pools on one policy object are two model states fed from one arena",
                "single-threaded (C05 is the concurrent statement)"]
 
 _built = {}
